@@ -26,6 +26,8 @@ from .absim import (
     UserCallable,
     V,
     _NO,
+    _Break,
+    _Continue,
     _Prune,
     all_runs,
     length,
@@ -252,6 +254,8 @@ class Scenario:
                         mm.block(st.body, env, fi)
                     except SimRaise as exc:
                         raised = exc.what
+                    except (_Continue, _Break):
+                        pass
                     calls = mm.trace_calls[calls0:]
                     dsave = any(c.endswith(".save_state") and c.split(".")[0] in _driver_names(prog, self.driver) for c in calls)
                     drev = any(c.endswith(".revert_state") and c.split(".")[0] in _driver_names(prog, self.driver) for c in calls)
